@@ -8,14 +8,16 @@ node reachable from the copy through any children map is a new node, i.e. the tw
 carries a container cache (`C14_detached_and_disjoint`, `cloneAux_root_record`). Full independence: the mutators proved in
 `Proofs/Frame` (AppendArray/AppendObject of one node, the deletions and pops, Delete, the scalar setters) applied on either side
 leave the whole record of every node of the other side unchanged (`C14_editing_the_original_never_changes_the_copy`,
-`C14_editing_the_copy_never_changes_the_original`). Value equality of the copy at clone time, and independence under
-SetArray/SetObject/SetNode, are checked by the clone probe, the frame probe and the kernel-evaluated witness below.
+`C14_editing_the_copy_never_changes_the_original`). A clone is equal: the copy is isomorphic to the original and every typed
+getter answers the same at corresponding nodes (`C14_equal_structure`, `C14_equal_values`). Independence under
+SetArray/SetObject/SetNode is checked by the clone probe, the frame probe and the kernel-evaluated witness below.
 -/
 import Ajson.Model.Mutate
 import Ajson.Proofs.MutBasics
 import Ajson.Proofs.CloneFrame
 import Ajson.Proofs.Acyclic
 import Ajson.Proofs.Frame
+import Ajson.Proofs.CloneIso
 import Ajson.Model.Decode
 import Ajson.Spec.WF
 
@@ -35,6 +37,28 @@ theorem C14_on_sound_heaps {h : Heap} (hs : Struct h) (ha : Acyc h) (n : Nat) (h
     (∀ m : Nat, m < h.size → (h.clone n).1.get m = h.get m) ∧
     (∀ m : Nat, Reach (h.clone n).1 (h.clone n).2 m → h.size ≤ m ∧ m < (h.clone n).1.size) ∧
     (h.clone n).1.datas = h.datas := clone_ok h n (clone_hypothesis hs ha n hn)
+
+/-- **a clone is equal**: for every node `n` of every sound acyclic heap, the copy `Clone()` returns is isomorphic to the original
+(`Iso`, Proofs/CloneIso): at every position reached by the same keys the copy has the same type, source span, dirty flag and
+scalar cache; the same keys are present under every container; each child of the copy is the copy of the original's child, with
+the same key and index, hanging under the copy. -/
+theorem C14_equal_structure {h : Heap} (hs : Struct h) (ha : Acyc h) (n : Nat) (hn : n < h.size) :
+    Iso h (h.clone n).1 h.size h.size (h.clone n).1.size h.size n (h.clone n).2 := clone_iso hs ha n hn
+
+/-- … hence value-equal through the accessors, position by position: wherever a copy node `c` corresponds to an original node `x`
+(at any depth `f + 1` of the correspondence), `Type` is the same, `GetNumeric`/`GetString`/`GetBool`/`GetNull` give the same answer
+(value or error), `GetKey` succeeds for the same keys, and the nodes it returns correspond again -/
+theorem C14_equal_values {h : Heap} (hs : Struct h) (ha : Acyc h) (n : Nat) (hn : n < h.size) (f x c : Nat)
+    (i : Iso h (h.clone n).1 h.size h.size (h.clone n).1.size (f + 1) x c) :
+    (h.clone n).1.typeOf c = h.typeOf x ∧
+    ((h.clone n).1.getNumeric (some c)).2 = (h.getNumeric (some x)).2 ∧
+    ((h.clone n).1.getString (some c)).2 = (h.getString (some x)).2 ∧
+    ((h.clone n).1.getBool (some c)).2 = (h.getBool (some x)).2 ∧
+    (h.clone n).1.getNull (some c) = h.getNull (some x) ∧
+    (∀ k, ((h.clone n).1.getKey (some c) k).isOk = (h.getKey (some x) k).isOk) ∧
+    (∀ k y, h.getKey (some x) k = .ok y → ∃ cl, (h.clone n).1.getKey (some c) k = .ok cl ∧
+      Iso h (h.clone n).1 h.size h.size (h.clone n).1.size f y cl) :=
+  Iso.equal (clone_ok h n (clone_hypothesis hs ha n hn)).2.2.2.2 f x c i
 
 /-- **fully independent, direction 1**: after `Clone()` of any node of a sound acyclic heap, AppendArray, AppendObject, DeleteKey /
 PopKey, DeleteIndex / PopIndex, Delete and SetNull/SetNumeric/SetString/SetBool applied to ANY nodes that existed before the call
